@@ -58,6 +58,8 @@ pub enum RK {
     Nested,
     ForeignOwned,
     ForeignWindow,
+    /// TooDeeViewMut::new over a slice that is LONGER than cols*rows (one surplus row)
+    DirectLong,
 }
 
 /// A receiver: parent shape plus (for windows) the rectangle(s).
@@ -94,6 +96,11 @@ impl Recv {
     pub fn foreign_window(pc: usize, pr: usize, s: Coordinate, e: Coordinate) -> Recv {
         Recv { kind: RK::ForeignWindow, ..Recv::window(pc, pr, s, e) }
     }
+    /// A c x r view built directly over the data of a c x (r+1) parent (1 x 1 for the empty view).
+    pub fn direct_long(c: usize, r: usize) -> Recv {
+        let (pc, pr) = if c == 0 { (1, 1) } else { (c, r + 1) };
+        Recv { kind: RK::DirectLong, pc, pr, s: (0, 0), e: (c, r), s2: (0, 0), e2: (0, 0) }
+    }
     pub fn nested(pc: usize, pr: usize, s: Coordinate, e: Coordinate, s2: Coordinate, e2: Coordinate) -> Recv {
         Recv { kind: RK::Nested, pc, pr, s, e, s2, e2 }
     }
@@ -101,7 +108,7 @@ impl Recv {
     pub fn rect(&self) -> (Coordinate, Coordinate) {
         match self.kind {
             RK::Owned | RK::ForeignOwned => ((0, 0), (self.pc, self.pr)),
-            RK::ViewMut | RK::ForeignWindow => norm(self.s, self.e),
+            RK::ViewMut | RK::ForeignWindow | RK::DirectLong => norm(self.s, self.e),
             RK::Nested => {
                 let (os, oe) = norm(self.s, self.e);
                 if os == oe {
@@ -127,6 +134,7 @@ impl Recv {
             RK::ForeignOwned => format!("FO{}x{}", self.pc, self.pr),
             RK::ViewMut => format!("V{}x{}[{},{}-{},{}]", self.pc, self.pr, self.s.0, self.s.1, self.e.0, self.e.1),
             RK::ForeignWindow => format!("FW{}x{}[{},{}-{},{}]", self.pc, self.pr, self.s.0, self.s.1, self.e.0, self.e.1),
+            RK::DirectLong => format!("DL{}x{}[{},{}]", self.pc, self.pr, self.e.0, self.e.1),
             RK::Nested => format!(
                 "N{}x{}[{},{}-{},{}][{},{}-{},{}]",
                 self.pc, self.pr, self.s.0, self.s.1, self.e.0, self.e.1, self.s2.0, self.s2.1, self.e2.0, self.e2.1
@@ -135,6 +143,9 @@ impl Recv {
     }
     pub fn parse(s: &str) -> Recv {
         let nums: Vec<usize> = s.split(|ch: char| !ch.is_ascii_digit()).filter(|x| !x.is_empty()).map(|x| x.parse().unwrap()).collect();
+        if s.starts_with("DL") {
+            return Recv { kind: RK::DirectLong, pc: nums[0], pr: nums[1], s: (0, 0), e: (nums[2], nums[3]), s2: (0, 0), e2: (0, 0) };
+        }
         if s.starts_with("FO") {
             Recv::foreign_owned(nums[0], nums[1])
         } else if s.starts_with("FW") {
@@ -267,6 +278,11 @@ macro_rules! with_recv {
                 let $r = &mut fw__;
                 $body
             }
+            RK::DirectLong => {
+                let mut vm__ = toodee::TooDeeViewMut::new($rd.e.0, $rd.e.1, $parent.data_mut());
+                let $r = &mut vm__;
+                $body
+            }
         }
     }};
 }
@@ -278,6 +294,7 @@ pub fn receivers(n: usize, foreign: bool, nested: bool, windows_of: &[(usize, us
     let mut v = Vec::new();
     for (c, r) in shapes(n) {
         v.push(Recv::owned(c, r));
+        v.push(Recv::direct_long(c, r));
         if foreign {
             v.push(Recv::foreign_owned(c, r));
         }
